@@ -259,14 +259,14 @@ def selftest(cases, work):
 # (cfg, prefix, exhaustive?, quick count, thorough count): exhaustive slices are enumerated completely by
 # TLC and then sampled by seed; simulations draw `count` behaviours (TLC -simulate, seeded)
 FAMILIES = [
-    ("MC_Modules_mods1.cfg", "mods1", True, 130, 1600),
-    ("MC_Modules_rev.cfg", "rev", True, 20, 150),
-    ("MC_Modules_dep2.cfg", "dep2", True, 130, 1600),
-    ("MC_Modules_hist.cfg", "hist", True, 170, 2000),
-    ("MC_Modules_simsafe.cfg", "simsafe", False, 280, 2400),
-    ("MC_Modules_sim.cfg", "sim", False, 160, 1600),
-    ("MC_Modules_simerrsafe.cfg", "simerrsafe", False, 80, 800),
-    ("MC_Modules_simerr.cfg", "simerr", False, 56, 480),
+    ("MC_Modules_mods1.cfg", "mods1", True, 100, 1600),
+    ("MC_Modules_rev.cfg", "rev", True, 16, 150),
+    ("MC_Modules_dep2.cfg", "dep2", True, 100, 1000),
+    ("MC_Modules_hist.cfg", "hist", True, 130, 1300),
+    ("MC_Modules_simsafe.cfg", "simsafe", False, 224, 1600),
+    ("MC_Modules_sim.cfg", "sim", False, 128, 900),
+    ("MC_Modules_simerrsafe.cfg", "simerrsafe", False, 64, 320),
+    ("MC_Modules_simerr.cfg", "simerr", False, 40, 200),
 ]
 
 
@@ -307,9 +307,9 @@ def run(tier, seed):
     r.notes.append(f"self-test: {n_mut} mutant oracles reported by the replayer")
 
     plan = [("dflt", cases)]
-    minl = cases if tier == "thorough" else rnd.sample(cases, int(len(cases) * 0.55))
+    minl = rnd.sample(cases, int(len(cases) * (0.8 if tier == "thorough" else 0.35)))
     plan.append(("minl", minl))
-    nj = rnd.sample(cases, min(len(cases), 160 if tier == "quick" else 1200))
+    nj = rnd.sample(cases, min(len(cases), 120 if tier == "quick" else 1200))
     plan.append(("nojit", nj[: len(nj) // 2]))
     plan.append(("nojit-minl", nj[len(nj) // 2:]))
     for envname, cs in plan:
